@@ -92,6 +92,7 @@ func runC09(t *testing.T, c *choice.Stream, r *Result, opt RunOpt) {
 			rows0 = c.Pick("rows0.huge", 40000, 70000, 140000)
 		}
 		initial := drawRoundVals(c, cols, rows0)
+		swapObjects := c.Bool("swap.objects", 1, 4)
 		// ---- the callback history ----
 		maxRounds := 5
 		if opt.Tier == "thorough" {
@@ -209,7 +210,17 @@ func runC09(t *testing.T, c *choice.Stream, r *Result, opt RunOpt) {
 				}
 			case "reset-append", "eof-tail-new":
 				for i, col := range lib {
-					col.Reset()
+					if swapObjects {
+						// the callback hands over a batch by replacing the column object
+						// (double buffering, batches by value) instead of refilling it
+						nc, err := gen.NewCol(cols[i].Type)
+						if err != nil {
+							return err
+						}
+						lib[i], input[i].Data, col = nc, nc, nc
+					} else {
+						col.Reset()
+					}
 					if err := gen.Fill(col, cols[i].RT, op.Vals[i]); err != nil {
 						return err
 					}
